@@ -64,7 +64,7 @@ def strategy_(draw, tier):
             "cy": draw(st.sampled_from([0.1, 5.0])), "shx": gen.normal(draw, (fx,)) * draw(st.sampled_from([10.0, 1e3, 1e6])),
             "shy": gen.normal(draw, (fy,)) * draw(st.sampled_from([1.0, 1e3, 1e6])),
             "nloc": draw(st.integers(2, 6)), "ridge_alpha": draw(st.sampled_from([1e-3, 1e-1])),
-            "sub": gen.permutation(draw, n), "lre_native": draw(st.integers(0, 4)) == 0}
+            "sub": gen.permutation(draw, n), "lre_native": draw(st.integers(0, 4)) == 0, "seed_order": draw(st.integers(0, 99))}
 
 
 def strategy(tier):
@@ -131,6 +131,17 @@ def check(case, ctx):
             pv = np.asarray(pGRE(X, X @ case["A"], scaler=StandardFlexibleScaler(column_wise=True), **idx))
         ctx.true("GRE(X,XA)==0(column-wise scaler)", v <= 1e-6, "GRE of a linear function of X with a column-wise scaler is %.3e" % v)
         ctx.close("GRE:global==rms(pointwise)(column-wise scaler)", v, float(np.sqrt(np.mean(pv ** 2))), 1e-10 * max(1.0, v), "user scaler")
+        # the documented default estimator handed over by the user, with its alpha grid listed in another order: same folds,
+        # same candidate models, so contained information stays contained
+        grid, so = np.geomspace(1e-9, 0.9, 20), int(case.get("seed_order", 1))
+        grid = grid[::-1].copy() if so % 2 else grid[np.random.default_rng(so).permutation(20)]
+        user = lambda: Ridge2FoldCV(alphas=grid.copy(), alpha_type="relative", regularization_method="cutoff",  # noqa: E731
+                                    random_state=0x5F3759DF, shuffle=True, scoring="neg_root_mean_squared_error", n_jobs=1)
+        with ctx.lib("GRE/GRD(user estimator, reordered grid)"):
+            v = GRE(X, X @ case["A"], estimator=user(), **idx)
+            v2 = GRD(X, X @ case["Q"], estimator=user(), **idx)
+        ctx.true("GRE(X,XA)==0(user grid order)", v <= 1e-6, "GRE of a linear function of X with the default estimator's grid reordered is %.3e" % v)
+        ctx.true("GRD(X,XQ)==0(user grid order)", v2 <= 1e-6, "GRD of a rotation of X with the default estimator's grid reordered is %.3e" % v2)
     else:
         ctx.skip("planted maps: an inner CV fold of the training part is rank deficient")
     # --- every function defined, non-negative, RMS; invariances ---------------------------------------------
